@@ -47,6 +47,9 @@ def sec_average(chk):
     C26.sec_average(chk)
 
 
+IC_LEVEL = [1]          # convergence level of the shared sampling controller (a counter that must be reset by start())
+
+
 def _model(ift, mf):
     dom = ift.RGSpace(8, distances=0.5)
     sm = ift.HarmonicSmoothingOperator(dom, 1.2)
@@ -56,7 +59,9 @@ def _model(ift, mf):
         op = sm.exp()
     d = np.linspace(-1., 2., 8)
     lh = ift.GaussianEnergy(data=ift.makeField(dom, d), inverse_covariance=ift.ScalingOperator(ift.DomainTuple.make(dom), 4., float)) @ op
-    ic = ift.AbsDeltaEnergyController(1e-8, iteration_limit=30)
+    # one controller object is shared by all samples drawn on a task: with convergence_level >= 2 it carries a counter from run to run,
+    # so a sample's iteration count would depend on which samples were drawn before it on the same task if start() did not reset it
+    ic = ift.AbsDeltaEnergyController(1e-8 if IC_LEVEL[0] == 1 else 1e-2, iteration_limit=30, convergence_level=IC_LEVEL[0])
     return ift.StandardHamiltonian(lh, ic_samp=ic, prior_sampling_dtype=float), lh
 
 
@@ -76,7 +81,9 @@ def _kl_observables(ift, comm, mf, n_samples, mirror):
     ift.random.push_sseq_from_seed(1234)
     try:
         pos = 0.1 * ift.from_random(H.domain)
-        kl = kle.SampledKLEnergy(pos, H, n_samples, None, mirror_samples=mirror, comm=comm, nanisinf=True)
+        # convergence level >= 2: geoVI sampling with one shared minimiser object whose controller counts consecutive small steps
+        sampler = None if IC_LEVEL[0] == 1 else ift.NewtonCG(ift.AbsDeltaEnergyController(0.5, convergence_level=IC_LEVEL[0], iteration_limit=6))
+        kl = kle.SampledKLEnergy(pos, H, n_samples, sampler, mirror_samples=mirror, comm=comm, nanisinf=True)
         t = ift.from_random(kl.position.domain)
         sl = kl.samples
         out = dict(value=_bits(kl.value), gradient=_bits(kl.gradient), metric=_bits(kl.apply_metric(t)), n_samples=sl.n_samples,
@@ -107,12 +114,14 @@ def sec_relational(chk):
     chk.assume("A-MPI: mpi4py's collectives and point-to-point messages behave like the stand-in communicator (threads, FIFO per pair)")
     fails, cases = [], 0
     configs = [(False, 2, True), (True, 3, True), (True, 3, False)] if chk.tier == "quick" else [(mf, n, mi) for mf in (False, True) for n in (1, 2, 3, 5) for mi in (True, False)]
-    for mf, n_samples, mirror in configs:
+    configs = [(mf, n, mi, 1) for mf, n, mi in configs] + [(True, 3, False, 2), (False, 3, True, 3)]
+    for mf, n_samples, mirror, level in configs:
+        IC_LEVEL[0] = level
         ref = _kl_observables(ift, None, mf, n_samples, mirror)
         ntot = ref["n_samples"]
         for ntask in ([2, 3, 5] if chk.tier == "quick" else [2, 3, 4, 5, 7]):
             cases += 1
-            lab = f"{'multi-field' if mf else 'single-field'} model, n_samples={n_samples}, mirror={mirror}, ntask={ntask} ({ntot} samples)"
+            lab = f"{'multi-field' if mf else 'single-field'} model, n_samples={n_samples}, mirror={mirror}, controller convergence level {level}, ntask={ntask} ({ntot} samples)"
             with per_rank_rng():
                 res, errs, w = run_ranks(ntask, lambda comm, rank: _kl_observables(ift, comm, mf, n_samples, mirror))
             if any(errs):
@@ -132,6 +141,7 @@ def sec_relational(chk):
                     if out[key] != ref[key]:
                         fails.append(dict(case=f"{lab}: '{key}' on rank {r} differs from the single-process result", detail=""))
                         break
+    IC_LEVEL[0] = 1
     chk.bounded("sampled KL energy, samples and statistics on a simulated communicator against the single-process run (bit-identical)",
                 bound=f"{cases} (model, n_samples, mirror, ntask) configurations, ntask up to {5 if chk.tier == 'quick' else 7} incl. more tasks than samples", cases=cases,
                 nontrivial=cases, failures=fails, kind="B-runtime")
